@@ -151,7 +151,7 @@ def oracle(hist, records):
                         stack.append(v)
             return desc
         failed = [t for t, oc in reps if oc == "FAIL"]
-        # known finding F38: a task skipped because an ancestor failed has its pattern dependencies resolved at its (skipped)
+        # known finding F42: a task skipped because an ancestor failed has its pattern dependencies resolved at its (skipped)
         # setup; the re-created DAG no longer connects it to the failed producer, and tasks a generator defines below it afterwards
         # get no mark. Class: the dependant is a generated task, and every path from the failed task to it runs through the
         # pattern dependency of a task that was reported SKIP_PREVIOUS_FAILED before the dependant's generator ran.
@@ -169,7 +169,7 @@ def oracle(hist, records):
                     gen_d = byid[d].get("parent")
                     cut_now = {u for u in cut if gen_d is not None and gen_d in pos and pos[u] < pos[gen_d]}
                     uncut = {e for e in live_edges if not (e in pat_edges and e[1] in cut_now)}
-                    finding = "F38" if gen_d is not None and cut_now and d not in below(f, uncut) else None
+                    finding = "F42" if gen_d is not None and cut_now and d not in below(f, uncut) else None
                     bad.append(("failure", f"build {bi}: task {d} depends on task {f}, which FAILED earlier in this build, but it was not skipped "
                                            f"(outcome {outcome[d]}, body {'ran' if d in starts else 'did not run'}); reports {reps}", finding))
         mf = (hist.get("kw") or {}).get("max_failures")
@@ -255,6 +255,13 @@ def oracle(hist, records):
                     excused = st.get("fails") or any(d not in rec["post"] or d not in rec["pre"] and d in spec["inputs"] for d in need)
                     for k in pa.after_ids(spec, st):
                         sk = byid.get(k)
+                        # `after=` makes every product of the target — ordinary, and the files a pattern product was resolved to —
+                        # a dependency of the task: a missing one excuses the failure, and so does a pattern product in a
+                        # directory where another producer's pattern overlaps (that producer may remove the files)
+                        if sk is not None and any(p_ not in rec["post"] for p_ in sk["prods"]):
+                            excused = True
+                        if sk is None and k not in rec["post"]:
+                            excused = True       # a copy task: its product is node k
                         if sk is not None and sk["pprods"]:
                             kr = set().union(*[ranges[p] for p in sk["pprods"]])
                             excused = excused or any(w != k and r & kr for w, r in writers.items())
@@ -345,8 +352,8 @@ def corpus():
                                              _t(7, pdeps=[f0], prods=[224], parent=4)],
                      "perfile": {}, "inputs": {"100": 2, "102": 4}, "version": 0},
             "steps": [["build"], ["build"]]}
-    # F38 witness: 1 (pattern producer) fails; 2 (pattern consumer, product 101 left over) is skipped; then generator 5 defines 6 <- 101
-    f38 = {"tag": "corpus-F38",
+    # F42 witness: 1 (pattern producer) fails; 2 (pattern consumer, product 101 left over) is skipped; then generator 5 defines 6 <- 101
+    f38 = {"tag": "corpus-F42",
            "spec": {"pats": pats, "tasks": [_t(1, pprods=[f0], fails=True), _t(2, deps=[100], pdeps=[f0], prods=[101]), _t(5, gen=True),
                                             _t(6, deps=[101, 105], prods=[106], parent=5)],
                     "perfile": {}, "inputs": {"100": 12, "105": 17, "101": 5}, "version": 0},
@@ -395,9 +402,20 @@ def gen_genfail(rng):
     return h
 
 
+def corpus_files():
+    """stored cases (corpus/C18/*.json): past false alarms and minimised disagreements; they must stay quiet"""
+    import json
+    import common
+    out = []
+    for f in sorted((common.VERIF / "corpus" / "C18").glob("*.json")):
+        h = json.loads(f.read_text())
+        out.append({"tag": h.get("tag", f.stem), "spec": h["spec"], "steps": h["steps"], **({"kw": h["kw"]} if h.get("kw") else {})})
+    return out
+
+
 def histories(ctx):
     rng = ctx.rng
-    hs = corpus()
+    hs = corpus() + corpus_files()
     for _ in range(ctx.scale(6, 60)):
         hs.append(gen_genfail(rng))
     for _ in range(ctx.scale(50, 600)):
